@@ -1784,6 +1784,13 @@ impl Group {
     pub(crate) fn calculate_object_bbox(&mut self) -> Option<NonZeroRect> {
         let mut bbox = BBox::default();
         for child in &self.children {
+            // An empty group has no geometry; its zero rectangle at the origin is not a box.
+            if let Node::Group(ref group) = child {
+                if !group.has_children() && group.filters.is_empty() {
+                    continue;
+                }
+            }
+
             let mut c_bbox = child.bounding_box();
             if let Node::Group(ref group) = child {
                 if let Some(r) = c_bbox.transform(group.transform) {
@@ -1804,6 +1811,13 @@ impl Group {
         let mut abs_stroke_bbox = BBox::default();
         let mut layer_bbox = BBox::default();
         for child in &self.children {
+            // An empty group has no geometry; its zero rectangle at the origin is not a box.
+            if let Node::Group(ref group) = child {
+                if !group.has_children() && group.filters.is_empty() {
+                    continue;
+                }
+            }
+
             {
                 let mut c_bbox = child.bounding_box();
                 if let Node::Group(ref group) = child {
